@@ -37,6 +37,11 @@ Section VecDispatch.
       "FLOATVECTOR.SINE"; "FLOATVECTOR.SORT*ASC"; "FLOATVECTOR.SORT*DESC"; "FLOATVECTOR.SUM" ].
   Proof. reflexivity. Qed.
 
+  (* no vector instruction looks at the build profile: debug and release builds agree *)
+  Lemma vector_profile_independent :
+    Forall (fun e => forall w s, snd e Debug w s = snd e Release w s) vector_table.
+  Proof. repeat (apply Forall_cons; [intros w s; reflexivity|]). apply Forall_nil. Qed.
+
   (* the two names that were bound to a foreign function on the pinned tree *)
   Lemma repaired_bindings :
     lookup full_registry (s2l "BOOLVECTOR.ROTATE") = Some (pure bvec_rotate) /\
